@@ -43,7 +43,7 @@ func TestVerifC04Metrics(t *testing.T) {
 	base := fmt.Sprintf("http://127.0.0.1:%d", port)
 	routes := []vmon.AdminRoute{{Method: "GET", URL: base + "/metrics", Action: "metrics"}, {Method: "GET", URL: base + "/metrics?type=paths", Action: "metrics"},
 		{Method: "GET", URL: base + "/metrics?path=cam1", Action: "metrics"}, {Method: "POST", URL: base + "/metrics", Action: "metrics"}, {Method: "GET", URL: base + "/", Action: "metrics"}}
-	vmon.AdminAuthMonitor(r, vmon.AdminCfg{TrustedProxy: trusted, Name: "metrics", Routes: routes, Batches: r.N(3, 600),
+	vmon.AdminAuthMonitor(r, vmon.AdminCfg{TrustedProxy: trusted, Name: "metrics", Routes: routes, Batches: r.N(3, 60),
 		SetUsers: func(uj string) error {
 			var users []conf.AuthInternalUser
 			if err := json.Unmarshal([]byte(uj), &users); err != nil {
